@@ -50,7 +50,7 @@ theorem bindTarget_dns (h : Nat) (rest : Multiaddr) :
 /-- Well-formedness of one listener record with respect to the interface list. -/
 def Bound.Wf (ifaces : Option (List IpAddr)) (b : Bound) : Prop :=
   ∀ s ∈ b.reported, s.port = b.sock.port ∧
-    (s.ip = b.sock.ip ∨
+    ((b.sock.ip.isUnspecified = false ∧ s.ip = b.sock.ip) ∨
       (b.sock.ip.isUnspecified = true ∧ s.ip.isV4 = b.sock.ip.isV4 ∧ ∃ l, ifaces = some l ∧ s.ip ∈ l))
 
 theorem expandOne_spec {t4 : Bool} {p : Nat} {i : IpAddr} {s : SockAddr} (h : expandOne t4 p i = some s) :
@@ -104,7 +104,8 @@ theorem bindAll_spec (ifaces : Option (List IpAddr)) (addrs : List Multiaddr) :
             intro s hs
             simp at hs
             subst hs
-            exact ⟨rfl, Or.inl rfl⟩
+            rename_i hun
+            exact ⟨rfl, Or.inl ⟨by simpa using hun, rfl⟩⟩
           · exact lift _ hb
 
 theorem bindAll_length (ifaces : Option (List IpAddr)) (addrs : List Multiaddr) :
@@ -192,15 +193,17 @@ theorem localDial_error {l : List SockAddr} {remote : IpAddr} :
       simpa using this
     · intro _; rfl
 
+/-- What an `Ok` of `lookup_ip` guarantees, per kind of host. -/
+def LookupOk (h : Host) (answer : Option (List IpAddr)) (s : SockAddr) : Prop :=
+  match h with
+  | .ip4 i => s.ip = .v4 i
+  | .ip6 i => s.ip = .v6 i
+  | .dns _ => ∃ l, answer = some l ∧ s.ip ∈ l
+  | .dns4 _ => ∃ l, answer = some l ∧ s.ip ∈ l ∧ s.ip.isV4 = true
+  | .dns6 _ => ∃ l, answer = some l ∧ s.ip ∈ l ∧ s.ip.isV4 = false
+
 theorem lookupIp_ok {h : Host} {port : Nat} {answer : Option (List IpAddr)} {s : SockAddr}
-    (hl : lookupIp h port answer = .ok s) :
-    s.port = port ∧
-      match h with
-      | .ip4 i => s.ip = .v4 i
-      | .ip6 i => s.ip = .v6 i
-      | .dns _ => ∃ l, answer = some l ∧ s.ip ∈ l
-      | .dns4 _ => ∃ l, answer = some l ∧ s.ip ∈ l ∧ s.ip.isV4 = true
-      | .dns6 _ => ∃ l, answer = some l ∧ s.ip ∈ l ∧ s.ip.isV4 = false := by
+    (hl : lookupIp h port answer = .ok s) : s.port = port ∧ LookupOk h answer s := by
   cases h with
   | ip4 i => simp [lookupIp] at hl; subst hl; exact ⟨rfl, rfl⟩
   | ip6 i => simp [lookupIp] at hl; subst hl; exact ⟨rfl, rfl⟩
